@@ -9,6 +9,15 @@ Property theorems only (helper lemmas: `Lemmas/GraphPath.lean` — the invariant
 as it is after fix 9d0d428. Weights: any linearly ordered additive commutative monoid, non-negative (`WFNet`);
 edge ids unique (`UniqueIds`, `EDGES` is a dict); points: any type.
 
+Sections: the four theorems of the design (walk, optimal, geometry chained, unreachable ⇒ None) on point lists;
+any cut-off, also below the true distance (`path_cut_sound`); the same through the TRACK operators of the C04 model
+(`Model/GraphPathExt.lean`: `Track()`, `addObs`, `copy`, `reverse`, `>`, `+` — `track_operators_agree`,
+`geometry_chained_track`, `path_optimal_track`); sequences of calls on one `Network` object with nodes given by id or by
+object and an optional `output_dict` (`session_*`, `backward_after_full_search`, `backward_settled_optimal`,
+`output_dict_entries_sound`). Exact arithmetic: weights are elements of a linearly ordered additive commutative monoid
+(integers, rationals: what the exact correspondence streams use); float rounding of sums is outside the theorems
+(sampled by the float stream of the harness, model instantiated at `Float`).
+
 `Route net geo s l g g' t y` (see `Lemmas/GraphBack.lean`) says: `l ++ [t]` is a list of nodes starting at `s` in which
 each consecutive pair is joined by an existing edge travelled in a direction its orientation permits, `y` is the sum of
 those edges' weights, `g` is the concatenation of those edges' polylines, each oriented along the direction of
